@@ -17,12 +17,15 @@ def check(pid: str, technique: str, text: str, note: str, ref: str) -> None:
 
 check(
     "C17",
-    "explicit-state search: every operation history up to length L on the real AsyncQueue "
-    "(hand-stepped virtual asyncio loop), list reference model",
+    "explicit-state search on the real AsyncQueue (hand-stepped virtual asyncio loop), list reference model: every operation history "
+    "up to length L, plus breadth-first search over canonical states (object graph of queue, "
+    "consumer task, loop queue + reference) run to a FIXPOINT for a backlog bounded by B",
     "Every operation sequence up to the stated length over the 11-operation alphabet (evidence.rule lists it) is executed "
-    "against the real queue on a fresh hand-stepped loop and compared with a list reference; "
-    "this is a coverage statement for all producer/consumer placements within the bound.",
-    "asyncio FIFO callback order; single consumer; histories longer than L are not covered.",
+    "against the real queue on a fresh hand-stepped loop and compared with a list reference; the fixpoint searches "
+    "(evidence.coverage.fixpoint_searches) cover operation sequences of EVERY length in which at most B elements are "
+    "outstanding, each new state also drained to the end; every state merge is re-validated differentially; "
+    "warm-up cycles repeated 5-40 times followed by every continuation of <= 3-4 operations reach far beyond the BFS horizon.",
+    "asyncio FIFO callback order; single consumer; backlog bounded by B in the fixpoint family (element values cycle with period 4).",
     "3/C17",
 )
 
@@ -39,10 +42,14 @@ check(
 check(
     "C12",
     "explicit-state search over call / clock-advance histories on the real cache (sync, async, "
-    "method) vs a reference LRU with time stamps",
+    "method) vs a reference LRU with time stamps: all histories up to length L, plus breadth-first search over canonical "
+    "states (implementation object graph + reference) run to a FIXPOINT, plus warm-up cycles x exhaustive continuations",
     "All histories up to length L over ==-equal differently typed keys, value-equal receivers "
-    "and clock advances, for every limit/expiration/variant; oracle evaluated after every step.",
-    "virtual monotonic clock; wrapped function instantaneous and never failing; L bounded.",
+    "and clock advances, for every limit/expiration/variant; oracle evaluated after every step. The fixpoint searches "
+    "(evidence.coverage.fixpoint_searches) cover histories of EVERY length over a lean alphabet (3 ==-equal keys or 2 receivers x 2 keys, "
+    "clock steps 1 and 4): the search ends when no new canonical state appears, every merge is re-validated by comparing all "
+    "one-step continuations. Deep probes repeat every cycle of <= 2 operations 9 / 20 (41) times and then run every continuation of <= 3 (4) operations.",
+    "virtual monotonic clock; wrapped function instantaneous and never failing; time stamps older than expiration+1 are merged as 'past' in canonical states (validated differentially).",
     "3/C12",
 )
 check(
@@ -69,8 +76,9 @@ check(
     "exhaustive enumeration of arrival patterns on a P/2 grid x all orders of equal-deadline "
     "timers on the real throttle in exact virtual time",
     "Every arrival pattern up to n calls on the grid with every tie order; window, order, "
-    "no-needless-delay and outcome clauses evaluated from exact virtual start times.",
-    "grid arrivals only (multiples of P/2); same-instant arrivals are symmetric.",
+    "no-needless-delay and outcome clauses evaluated from exact virtual start times. Long patterns of 8-16 calls "
+    "(gap cycle + <= 2 free gaps, limits 1..4) are explored with a stated bound of 2 (3) tie-order deviations.",
+    "grid arrivals only (multiples of P/2); same-instant arrivals are symmetric; the long patterns are deviation-bounded (evidence.coverage.declared_deviation_bound).",
     "3/C15",
 )
 check(
